@@ -86,6 +86,13 @@ def run(R):
                 if not blocks or not blocks <= region or (blocks & others):
                     ok = False
                     R.viol("C01.arm", "wrong-arm:%s" % callee.split("::")[-1], "%s is not confined to the %s arm of handle_local_cmd" % (callee.split("::")[-1], arm), hlc, hlc.lines[0])
+            # ... and each of these arms always performs its store operation (a notice that is dropped leaves a written record unlisted,
+            # a failed write that is not removed leaves a listed key without a file)
+            for callee, arm, what in ((API + "mark_as_stored", "AddLocalRecordAsStored", "mark_as_stored"),
+                                      ("*libp2p_kad::record::store::RecordStore>::remove", "RemoveFailedLocalRecord", "store.remove")):
+                if arms.get(arm):
+                    R.must_pass("C01.arm.always." + arm, hlc, [(what, CallSink(callee))], from_blocks=arms[arm],
+                                descr="the %s arm always calls %s" % (arm, what))
         else:
             R.viol("C01.arm", "arms-missing", "match over LocalSwarmCmd not found", hlc, hlc.lines[0])
         R.inst("C01.arm", "K4 gate", "put_verified ↔ PutLocalRecord arm, mark_as_stored ↔ AddLocalRecordAsStored arm", 2, ok)
@@ -307,6 +314,20 @@ def run(R):
         if not okd:
             R.viol("C01.remove.by_distance.always", "skippable:records_by_distance.remove", "remove can drop an indexed key without dropping its distance entry", rm, rm.lines[0])
         R.inst("C01.remove.by_distance.always", "K5 must-follow", "indexed key ⇒ distance entry removed on every path", len(acc), okd)
+        # (5b) the write-completion notice always registers the key (index + distance index): a completed accepted write is readable
+        mk = R.body("C01.mark.always", MARK)
+        if mk is not None:
+            prep(mk)
+            R.must_pass("C01.mark.always", mk, [("records.insert(key, ..)", BlockSink(on_field(["std::collections::hash::map::HashMap::insert"], "records"), "records.insert")),
+                                                ("records_by_distance.insert(.., key)", BlockSink(on_field(["alloc::collections::btree::map::BTreeMap::insert"], "records_by_distance"), "records_by_distance.insert"))],
+                        descr="mark_as_stored registers the key in the index and the distance index on every path")
+            ta = Taint(mk, through="all")
+            keyp = ta.closure(PL(mk, 1))
+            ins = [b for b in mk.blocks if b["term"]["k"] == "call" and not b["cleanup"] and b["id"] in on_field(["std::collections::hash::map::HashMap::insert"], "records")(mk)]
+            okk = bool(ins) and all(op_local(b["term"]["args"][1]) in keyp for b in ins)
+            if not okk:
+                R.viol("C01.mark.key", "mark-key", "mark_as_stored does not index the key it was notified about", mk, mk.lines[0])
+            R.inst("C01.mark.key", "K6 flows-to", "records.insert(key of the completed write, ..)", len(ins), okk)
         dels = [c for b in F.item(REMOVE) if b.kind == "closure" for c in b.calls if c["ncallee"] == "std::fs::remove_file"]
         if not dels:
             R.viol("C01.remove.file", "delete-missing", "the task spawned by remove does not delete the record file", rm, rm.lines[0])
